@@ -108,3 +108,66 @@ func ruleOpMargin(c *Ctx, r *Report, prefix string) {
 		fmt.Sprintf("opLenMargin = %d >= %d bytes of the most expensive operation (%d model bits at up to %.3f bits, %d direct bits) + %d to close the range coder", margin, smax, modelBits, perBit, directBits, closeK),
 		fmt.Sprintf("opLenMargin = %d, but one match can need %d bytes of range-coder output (%d model bits at up to %.3f bits each when every context sits at its extreme, %d direct bits) and closing the coder needs %d more while Available() >= 1: an operation admitted with fewer than %d bytes available ends in ErrLimit inside the operation or in Close - Writer2.Write/Close fail on valid input (reproducer: /verif/findings/op-margin)", margin, smax, modelBits, perBit, directBits, closeK, need))
 }
+
+// ---- WR-RAWCOPY: a chunk is stored raw only if the encoder dictionary still holds its bytes ----
+// writeUncompressedChunk copies encoder.Compressed() bytes out of the encoder dictionary
+// (encoderDict.CopyN, which fails with ErrNoSpace beyond encoderDict.Len()). The dictionary retains
+// DictCap bytes, a chunk of incompressible data reaches 64 KiB, and Verify admits DictCap = 4096:
+// every call of writeUncompressedChunk must therefore lie behind the true edge of
+// Compressed() <= dict.Len() (the compressed form is always possible).
+func ruleRawCopy(c *Ctx, r *Report, prefix string) {
+	rule := prefix + "WR-RAWCOPY"
+	raw := c.Func("lzma", "Writer2.writeUncompressedChunk")
+	comp := c.Func("lzma", "encoder.Compressed")
+	dlen := c.Func("lzma", "encoderDict.Len")
+	if raw == nil || comp == nil || dlen == nil {
+		return
+	}
+	isCallOf := func(v ssa.Value, f *ssa.Function) bool {
+		cl, ok := stripConv(v).(*ssa.Call)
+		return ok && cl.Call.StaticCallee() == f
+	}
+	n := 0
+	for _, fn := range c.modFuncs {
+		if fn.Blocks == nil || fn == raw {
+			continue
+		}
+		for _, b := range fn.Blocks {
+			for _, ins := range b.Instrs {
+				if _, isC := callTo(ins, raw); !isC {
+					continue
+				}
+				n++
+				guarded := false
+				for _, gb := range fn.Blocks {
+					if len(gb.Instrs) == 0 || len(gb.Succs) != 2 || gb.Succs[0] == gb.Succs[1] {
+						continue
+					}
+					iff, isIf := gb.Instrs[len(gb.Instrs)-1].(*ssa.If)
+					if !isIf {
+						continue
+					}
+					bo, isB := iff.Cond.(*ssa.BinOp)
+					if !isB {
+						continue
+					}
+					okCond := (bo.Op == token.LEQ && isCallOf(bo.X, comp) && isCallOf(bo.Y, dlen)) ||
+						(bo.Op == token.GEQ && isCallOf(bo.X, dlen) && isCallOf(bo.Y, comp))
+					if !okCond {
+						continue
+					}
+					t := gb.Succs[0]
+					if len(t.Preds) == 1 && t.Dominates(b) {
+						guarded = true
+					}
+				}
+				key := FnName(fn)
+				r.Check(guarded, rule, key, c.InstrPos(ins), "writeUncompressedChunk is called only behind Compressed() <= encoder dictionary Len()",
+					"a chunk can be stored raw although the encoder dictionary no longer holds all of its bytes (DictCap below the 64 KiB an incompressible chunk reaches): encoderDict.CopyN fails with ErrNoSpace after a partial copy and Writer2.Write reports 'insufficient space' (reproducer: /verif/findings/raw-chunk-small-dict)")
+			}
+		}
+	}
+	if n == 0 {
+		r.Undecided(rule, "call-sites", c.Pos(raw.Pos()), "no call of writeUncompressedChunk found")
+	}
+}
